@@ -6,6 +6,7 @@
    A built-in that exists in the implementation but is not modelled answers Unsup (case skipped);
    a name that does not exist answers None (method not found => error). *)
 From P2 Require Import Base.Prelude Sem.Num Sem.Syntax Sem.Ops.
+From P2 Require Export Sem.StrLib.
 Local Open Scope Z_scope.
 
 Definition S_ (l : list N) : str := l.
@@ -486,7 +487,8 @@ Definition method_arity (recv : value) (mname : name) : option arity :=
   match recv with
   | VList _ => list_method mname
   | VMap _ => map_method mname
-  | VStr _ => if str_eqb mname n_len || str_eqb mname n_string then Some (Fixed 0) else None
+  | VStr _ => if str_eqb mname n_len || str_eqb mname n_string then Some (Fixed 0)
+              else match str_method_args mname with Some k => Some (Fixed k) | None => None end
   | VInt _ | VFloat _ | VBool _ => if str_eqb mname n_string then Some (Fixed 0) else None
   | _ => None
   end.
@@ -498,7 +500,7 @@ Definition run_method (recv : value) (mname : name) (args : list value) : res va
   | VStr s =>
       if str_eqb mname n_len then Ok (VInt (utf8_len s))
       else if str_eqb mname n_string then Ok (VStr s)
-      else Unsup
+      else run_str_method mname s args       (* Sem/StrLib.v: the first-order string methods *)
   | VInt _ | VFloat _ | VBool _ =>
       if str_eqb mname n_string then bind (to_string recv) (fun s => Ok (VStr s)) else Unsup
   | _ => Unsup
